@@ -195,7 +195,9 @@ def one_tree(ck: Check, root: Node, reqs: list[str], impl: list[str], inputs: li
                 ck.fail("touches-other-bytes", f"reading {path_token(p)} decoded {dl.log} instead of [({s}, {e - s})] [{label}]", {**inp, "path": path_token(p)})
             if corrupted is not None:
                 overlaps = not (e <= corrupted[0] or corrupted[1] <= s)
-                if not overlaps and v.startswith("err:"):
+                # (a field under a REDEFINES may hold another alternative's bytes and be unreadable in the valid record already:
+                # only a field that WAS readable must stay readable)
+                if not overlaps and v.startswith("err:") and not str(base_values.get(p, "")).startswith("err:"):
                     ck.fail("corrupt-field-spreads", f"field {path_token(p)} cannot be read ({v}) because bytes {corrupted} of another field are invalid", {**inp, "path": path_token(p)})
                 if not overlaps and v != base_values.get(p):
                     ck.fail("corrupt-field-spreads", f"field {path_token(p)} reads {v} instead of {base_values.get(p)} when another field is corrupted", {**inp, "path": path_token(p)})
